@@ -897,13 +897,26 @@ const SERVER_NAMES: &[&str] = &["o.example", "a", "localhost:8448", "[::1]", "[:
 const KEY_IDS: &[&str] = &["ed25519:1", "ed25519:a_b", "ed25519:AbC09", "x:1", "ed25519:0_"];
 
 fn gen_header(r: &mut Rng) -> String {
-    // mostly the shape XMatrix Display writes, with optional whitespace / quoting / order variations
+    // mostly the shape XMatrix Display writes, with whitespace / quoting / order / case variations,
+    // sometimes other challenges around it, sometimes broken
+    fn is_token(v: &str) -> bool {
+        !v.is_empty() && v.bytes().all(ruma_common::http_headers::is_tchar)
+    }
     let q = |r: &mut Rng, v: &str| -> String {
-        match r.below(4) {
-            0 => v.to_owned(),
-            1 => format!("\"{}\"", v.replace('\\', "\\\\").replace('"', "\\\"")),
-            2 => format!("\"{}\"", v.chars().map(|c| if r.chance(1, 4) { format!("\\{c}") } else { c.to_string() }).collect::<String>()),
-            _ => format!("\"{v}\""),
+        let escaped = format!("\"{}\"", v.replace('\\', "\\\\").replace('"', "\\\""));
+        if is_token(v) {
+            match r.below(10) {
+                0..=4 => v.to_owned(),
+                5..=8 => escaped,
+                _ => format!("\"{}\"", v.chars().map(|c| if r.chance(1, 3) { format!("\\{c}") } else { c.to_string() }).collect::<String>()),
+            }
+        } else {
+            match r.below(20) {
+                0 => v.to_owned(),
+                1 => format!("\"{v}\""),
+                2 | 3 => format!("\"{}\"", v.chars().map(|c| if r.chance(1, 3) || c == '"' || c == '\\' { format!("\\{c}") } else { c.to_string() }).collect::<String>()),
+                _ => escaped,
+            }
         }
     };
     let vals: &[&str] = &["o.example", "d.example:8448", "ed25519:1", "AQL//v0", "dGVzdA", "dGVzdA==", "", "a b", "x\"y", "x\\y", "[::1]", "!!", "ed25519:", "=", "a,b"];
@@ -912,28 +925,42 @@ fn gen_header(r: &mut Rng) -> String {
     if r.chance(1, 6) {
         s.push_str(pk(r, &["Basic realm=\"x\", ", "Bearer, ", "Digest a=b,c=d, ", "Foo ,", ", "]));
     }
-    s.push_str(pk(r, &["X-Matrix", "x-matrix", "X-MATRIX", "X-Matrix", "X-Matri", "XMatrix"]));
-    s.push_str(pk(r, &[" ", " ", " ", "  ", "\t", ""]));
-    let n = r.below(6);
+    s.push_str(pk(r, &["X-Matrix", "X-Matrix", "X-Matrix", "X-Matrix", "x-matrix", "X-MATRIX", "X-Matri", "XMatrix"]));
+    if r.chance(1, 25) {
+        s.push_str(pk(r, &["  ", "\t", ""]));
+    } else {
+        s.push(' ');
+    }
+    let n = *r.pick(&[0usize, 1, 2, 3, 3, 4, 4, 4, 4, 5]);
+    let rot = if r.chance(1, 3) { r.below(4) } else { 0 };
     for i in 0..n {
         if i > 0 {
-            s.push_str(pk(r, &[",", ",", ",", ", ", " ,", ",,", " "]));
+            if r.chance(1, 30) {
+                s.push_str(pk(r, &[" ", ";", ""]));
+            } else {
+                s.push_str(pk(r, &[",", ",", ",", ",", ",", ", ", ", ", " ,", ",,", ",\t"]));
+            }
         }
-        let name = if r.chance(3, 4) { ["origin", "destination", "key", "sig"][i % 4] } else { *r.pick(names) };
-        s.push_str(name);
-        s.push_str(pk(r, &["=", "=", "=", " =", "= ", ""]));
+        let name = if r.chance(7, 8) { ["destination", "key", "origin", "sig"][(i + rot) % 4] } else { *r.pick(names) };
+        let name = if r.chance(1, 8) { name.to_ascii_uppercase() } else { name.to_owned() };
+        s.push_str(&name);
+        if r.chance(1, 30) {
+            s.push_str(pk(r, &["", "==", ":"]));
+        } else {
+            s.push_str(pk(r, &["=", "=", "=", "=", "=", "=", " =", "= ", " = "]));
+        }
         let v = match name.to_ascii_lowercase().as_str() {
-            "origin" | "destination" if r.chance(3, 4) => *r.pick(SERVER_NAMES),
-            "key" if r.chance(3, 4) => *r.pick(KEY_IDS),
-            "sig" if r.chance(3, 4) => *r.pick(&["AQL//v0", "dGVzdA", "dGVzdA==", "", "AA"]),
+            "origin" | "destination" if r.chance(7, 8) => *r.pick(SERVER_NAMES),
+            "key" if r.chance(7, 8) => *r.pick(KEY_IDS),
+            "sig" if r.chance(7, 8) => *r.pick(&["AQL//v0", "dGVzdA", "dGVzdA", "", "AA", "AQL//v0", "dGVzdA=="]),
             _ => *r.pick(vals),
         };
         s.push_str(&q(r, v));
     }
-    if r.chance(1, 8) {
+    if r.chance(1, 12) {
         s.push_str(pk(r, &[",", ", Basic", ", Basic realm=x", " ", "\"", ", ="]));
     }
-    if r.chance(1, 10) && !s.is_empty() {
+    if r.chance(1, 15) && !s.is_empty() {
         // single-byte mutation
         let mut b = s.into_bytes();
         let i = r.below(b.len());
